@@ -19,7 +19,7 @@ Rendering(fmt, order, builtins, introTypes, roots, fold, sparse, docs) ==
    roots |-> roots,          \* "explicit" (schema block, custom names) | "default" (no block, Query/Mutation/
                              \* Subscription) | "defaultExplicit" (those names, but listed in a schema block)
    fold |-> fold,            \* SDL: `extend type` blocks folded into the type or kept separate
-   sparse |-> sparse,        \* JSON: null members omitted
+   sparse |-> sparse,        \* JSON: null members omitted, and (when no input is @oneOf) no `isOneOf` member at all
    docs |-> docs]            \* everything the generator must ignore is present: descriptions, comments,
                              \* a custom directive (definition and applications), specifiedByURL, isRepeatable
 
